@@ -171,7 +171,7 @@ class Ctx:
         e = dict(os.environ, **(env or {}))
         p = subprocess.run(cmd, capture_output=True, text=True, timeout=timeout, cwd=self.scratch, env=e)
         res = None
-        for line in p.stdout.splitlines():
+        for line in p.stdout.split("\n"):
             if line.startswith("RESULT "):
                 res = json.loads(line[7:])
         if res is None:
@@ -278,7 +278,7 @@ class Ctx:
     def vh_quiet(self, sub, *args, timeout=3600):
         cmd = [self.vh_path, sub] + [str(a) for a in args]
         p = subprocess.run(cmd, capture_output=True, text=True, timeout=timeout, cwd=self.scratch)
-        for line in p.stdout.splitlines():
+        for line in p.stdout.split("\n"):
             if line.startswith("RESULT "):
                 res = json.loads(line[7:])
                 if not res.get("error"):
